@@ -7,7 +7,7 @@ HOOK_COMMITS = []
 
 ENGINES = [
     {'name': 'E1-input-config-explorer', 'path': 'vf/core.py, vf/univ.py, vf/oracles.py',
-     'serves_properties': ['C01', 'C02', 'C03', 'C04', 'C05', 'C06', 'C09', 'C10', 'C11'],
+     'serves_properties': ['C01', 'C02', 'C03', 'C04', 'C05', 'C06', 'C09', 'C10', 'C11', 'C17', 'C19'],
      'kind_free_text': 'explicit enumeration of every input shape/value/configuration inside stated bounds; real code run on each; compared with a reference model on every case'},
     {'name': 'E4-sanitizer-native-enumerator', 'path': 'native/c08drv.c, vf/props/c08.py', 'serves_properties': ['C08'],
      'kind_free_text': 'native driver enumerating its configuration universe under ASan/UBSan with exact-size buffers; abort-and-restart attribution through a breadcrumb file'},
@@ -87,6 +87,17 @@ CHECKS['C07'] = (E3, 'E3-vomp-schedule-explorer',
     'conflicting accesses found by a shadow map become additional scheduling points (two-phase). multiprocessing: a virtual Pool (pickled tasks, real chunking, all completion orders, P = 1..3) replaces multiprocessing.Pool; validated against the real Pool.',
     'Trusted: vomp (sequentially consistent interleavings; libgomp itself and weak memory are out of scope), gcc outlining. Bounds: T <= 4, preemption bound <= 3, n <= 5.',
     'DESIGN.md section 3 E3a/E3b, section 4 C07')
+
+CHECKS['C17'] = (E1, 'E1-input-config-explorer',
+    'All pairs of sequences over {A,B,C} with lengths 0..4 (5), empty sequences included, x 6 scorings (default, custom gap costs, dictionaries with asymmetric entries, max/min orientation) x all 6 traceback orders: '
+    'the returned value must equal the maximum score over ALL explicitly enumerated global alignments, and every reconstructed alignment must be equal-length, gap/gap-free, de-gap to the inputs and score the returned value.',
+    'Trusted: the 15-line recursive enumeration of alignments. Column score = -substitution value / -gap (library sign convention).',
+    'DESIGN.md section 4 C17')
+CHECKS['C19'] = (E1, 'E1-input-config-explorer',
+    'All arrays over a 4-letter non-negative alphabet of shapes (1,),(2,),(3,),(2,2) x every method of distance_to_similarity and squash x explicit/derived r, a, x0, base x cover_quantile forms x keep_sign x return_params: '
+    'pointwise monotonicity on all index pairs, zero distance -> maximal similarity, range [0,1] under the default scale, equality with the documented closed form for explicit parameters, no NaN, and re-application with the reported parameters.',
+    'Trusted: math.exp transcription of the docstring formulas. Explicitly requested quantile targets that are unsatisfiable (derived scale not finite and positive) are counted, not judged.',
+    'DESIGN.md section 4 C19')
 
 ALL = ['C%02d' % i for i in range(1, 21)]
 NOT_APPLICABLE = {p: PENDING for p in ALL if p not in CHECKS}
